@@ -22,7 +22,7 @@ class Unrepresentable(Exception):
 
 def fq(x: float) -> int:
     q = x * 4
-    if q != q or q in (float("inf"), float("-inf")) or q != int(q) or abs(q) > 2**30:
+    if q != q or q in (float("inf"), float("-inf")) or q != int(q) or abs(q) > 2**26:
         raise Unrepresentable(f"float {x}")
     return int(q)
 
@@ -142,7 +142,7 @@ class Conv:
             if isinstance(v, bool):
                 return ["Const", "bool", int(v)]
             if isinstance(v, int):
-                if abs(v) > 2**30:
+                if abs(v) > 2**26:
                     raise Unrepresentable(f"int {v}")
                 return ["Const", "int", v]
             if isinstance(v, float):
